@@ -911,6 +911,19 @@ func (e *Env) call(n *ast.CallExpr) *Value {
 			at = "alloc0"
 		}
 		return boolLeaf(fmt.Sprintf("(or (= %s 0) (not (select %s %s)))", ts[0], at, ts[0]))
+	case "exists_now":
+		// exists_now(x): the object x refers to (a pointer, or the backing array of a slice) is nil or exists in the
+		// state in which the clause is evaluated - so it differs from anything allocated afterwards
+		v := e.eval(n.Args[0])
+		ts := x.flatten(v)
+		if len(ts) == 0 {
+			e.fail("exists_now: unsupported argument")
+		}
+		at := e.view().allocT
+		if at == "" {
+			at = "alloc0"
+		}
+		return boolLeaf(fmt.Sprintf("(or (= %s 0) (select %s %s))", ts[0], at, ts[0]))
 	case "sends":
 		// sends(ch): number of sends on channel ch performed so far by the function
 		ch := e.eval(n.Args[0])
